@@ -759,6 +759,9 @@ pub fn parent_main(prop: &PropertyDef, all_props_bin: &Path, opts: &ParentOpts) 
         println!("{l}");
     }
     if !violation_lines.is_empty() {
+        for e in hard_errors.iter().take(3) {
+            eprintln!("(also) HARNESS-ERROR: {}", &e[..e.len().min(600)]);
+        }
         return 1;
     }
     if !hard_errors.is_empty() {
